@@ -142,3 +142,56 @@ def enumerate_insert_cases(max_ops=2, max_in=2):
 
 if __name__ == '__main__':
     case = json.load(open(sys.argv[2])); print(json.dumps(replay_insert(sys.argv[1], case), indent=1, default=str))
+
+# ------------------------------------------------------------------------------------------------ performer
+def replay_apply_single(mv):
+    """state of a TransformationPerformer (op-id maps of one subgraph) + one instruction -> the REAL _apply_single_transformation ->
+    native PerfInv / C01 clauses"""
+    schema, tu, di, qi, qt = _mods()
+    import importlib
+    tp = importlib.import_module('ai_edge_quantizer.transformation_performer')
+    O, A, n, tr, P, C = list(mv['orig_map']), list(mv['added_map']), mv['n_ops'], mv['transformation'], mv['producer'], list(mv['consumers'])
+    n0 = len(O)
+    pre = []
+    if any(not (0 <= x < n) for x in O + A) or any(O[k] >= O[k + 1] for k in range(n0 - 1)): pre.append('PerfInv violated at entry')
+    if not C or any(not (-1 <= c < n0) for c in C) or not (-1 <= P < n0 + len(A)): pre.append('InstValid violated')
+    Pcur = -1 if P < 0 else (O[P] if P < n0 else A[P - n0])
+    if not pre and any(c >= 0 and O[c] <= Pcur for c in C): pre.append('consumer not after producer')
+    if pre: return dict(confirmed=False, note='counter-model violates a precondition natively', pre=pre, inputs=mv)
+    cons_cur = sorted({O[c] for c in C if c >= 0})
+    ops = []
+    nt = 2 + n
+    for j in range(n):
+        ops.append(dict(inputs=[0] if j in cons_cur else [1], outputs=[0] if j == Pcur else [2 + j], code=0))
+    desc = dict(n_tensors=nt, ops=ops, outputs=[0] if -1 in C else [nt - 1], inputs=[1], codes=[0])
+    sg, codes, bufs = build(desc)
+    model = schema.ModelT(); model.subgraphs = [sg]; model.operatorCodes = codes; model.buffers = bufs
+    perf = tp.TransformationPerformer(); perf._original_op_id_map = [list(O)]; perf._added_op_id_map = [list(A)]
+    qp = qt.UniformQuantParams(8, None, np.array([0.5], dtype=np.float32), np.array([0], dtype=np.int64))
+    inst = qt.TransformationInst(qt.QuantTransformation(tr), 0, P, list(C), qp)
+    tinst = qt.TensorTransformationInsts('t0', 0, [inst])
+    ops_before = list(sg.operators)
+    try: perf._apply_single_transformation(tinst, 0, model)
+    except Exception as e: return dict(confirmed=False, inputs=mv, observed=dict(raised=f'{type(e).__name__}: {e}'))
+    bad = []
+    newmap = perf._original_op_id_map[0]
+    if len(newmap) != n0: bad.append('op-id map length changed')
+    else:
+        for k in range(n0):
+            if not (0 <= newmap[k] < len(sg.operators)) or sg.operators[newmap[k]] is not ops_before[O[k]]: bad.append(f'PerfInv: map entry {k} = {newmap[k]} does not track original operator {k}')
+    bad += ['C01 ' + b for b in wf_violations(view_of(sg), len(sg.tensors), len(codes))]
+    return dict(confirmed=bool(bad), inputs=mv, violated=bad, observed=dict(op_id_map=list(newmap), ops=view_of(sg)['ops']))
+
+def enumerate_apply_single(max_ops=3):
+    cases = []
+    for n in range(1, max_ops + 1):
+        for n0 in range(0, n + 1):
+            for O in itertools.combinations(range(n), n0):
+                for A in ([], [x for x in range(n) if x not in O][:1]):
+                    for P in range(-1, n0 + len(A)):
+                        pool = list(range(n0)) + [-1]
+                        for r in (1, 2):
+                            for C in itertools.combinations(pool, r):
+                                for tr in (1, 2, 3):
+                                    cases.append(dict(orig_map=list(O), added_map=list(A), n_ops=n, transformation=tr, producer=P, consumers=sorted(C)))
+    return cases
